@@ -206,6 +206,10 @@ def apply_contract(run, fi, sp, env, dyn_cls):
         run.emit('call.pre', g, '%s#%d' % (fi.qual, k), props=tuple(set(c.props or ()) | set(run.cur_props)),
                  meta={'callee': fi.qual, 'clause': c.text})
         run.st.assume(g)
+    if sp.raises:
+        # the callee may reject the call; its own obligations show that it then leaves everything unchanged
+        if run.path.choice(2) == 1:
+            raise PyRaise(sp.raises[0] if isinstance(sp.raises, (list, tuple)) else 'Exception', 'in ' + fi.qual)
     descs = parse_modifies(run, sp.modifies, env, fi=fi, dyn_cls=dyn_cls)
     havoc(run, descs)
     for d in descs:
